@@ -15,6 +15,7 @@ for d in sorted(glob.glob(os.path.join(V, 'seeded', '*'))):
     nat = det.get('native', [])[:1]
     how = ('%s tier: ' % t) + ('; '.join('`%s`' % o for o in obs) if obs else '') + ((' native ' + '; '.join('`%s`' % n for n in nat)) if nat else '') if t else '**missed**'
     if t and not obs and nat: how = '%s tier, native family only (unit undecided or type-level change): `%s`' % (t, nat[0])
-    conf = m.get('confirmed', {}).get('result', [])
+    try: conf = open(os.path.join(d, 'confirm.txt')).read().splitlines()
+    except OSError: conf = m.get('confirmed', {}).get('result', [])
     c = 'yes' if any('demo on patched tree: exit=1' in l for l in conf) and any('SUITE: ctest exit=0' in l for l in conf) else ('agent only' if not conf else 'partly')
     print("| %s | %s | %s | %s | %s | %s |" % (sid, m['property_broken'], m['change'].replace('|', '\\|'), m['needs_to_manifest'].replace('|', '\\|'), how, c))
